@@ -173,6 +173,130 @@ def check_c01(pid, tier, seed, only):
     return res
 
 
+def _simple_e1(pid, tier, seed, only, specs, title, bounds, **kw):
+    res = Result(pid, tier, seed)
+    e1, err = _e1(pid, tier, seed, **kw)
+    if e1 is None:
+        res.inconclusive.append("symlift does not build against /repo: " + err[-300:])
+        return res, None
+    specs = _filter(specs, only)
+    s = e1.run(specs, cost=e1_cost)
+    bounds = dict(bounds, per_query_cap_s=e1.cap, M_max_bits=e1.max_m_bits, specs=len(specs))
+    res.add_e1(title, e1, s, bounds)
+    return res, e1
+
+
+def check_c06(pid, tier, seed, only):
+    if tier == "quick":
+        ns = list(range(1, 65)) + [96, 100, 120, 128, 243, 256]
+    else:
+        ns = sorted(set(range(1, 201)) | {240, 243, 250, 255, 256, 257, 288, 320, 343, 360, 384, 400, 480, 500, 512, 625, 640, 720, 729, 768, 1000, 1024})
+    specs = [f"c06:n={n}" for n in ns] + [f"c06:n={n}:planner=scalar" for n in (1, 2, 7, 30, 37, 59, 64)]
+    res, _ = _simple_e1(pid, tier, seed, only, specs,
+                        "one planner plans both directions (both planning orders): inv(fwd(x)) = n*x, fwd(inv(x)) = n*x, inv(x) = conj(fwd(conj x)) for all x; oracle-free, both sides are symbolic executions",
+                        {"lengths": f"{len(ns)} lengths, max {max(ns)}", "entry_points": "process_with_scratch, process_immutable_with_scratch", "planners": "FftPlanner::<Sym>, FftPlannerScalar::<Sym>"})
+    return res
+
+
+def check_c07(pid, tier, seed, only):
+    specs = []
+    if tier == "quick":
+        for n in list(range(1, 33)):
+            for k in (2, 3, 4):
+                specs.append(f"c07:n={n}:k={k}:dir={'fwd' if (n + k) % 2 else 'inv'}")
+        for n in (37, 48, 59, 64, 100):
+            for k in (2, 3):
+                specs.append(f"c07:n={n}:k={k}:dir=fwd")
+        bound = "n in 1..32 x k in {2,3,4}; n in {37,48,59,64,100} x k in {2,3}"
+    else:
+        for n in list(range(1, 33)):
+            for k in range(2, 9):
+                for d in ("fwd", "inv"):
+                    specs.append(f"c07:n={n}:k={k}:dir={d}")
+        for n in list(range(33, 129)):
+            for k in (2, 3, 4):
+                specs.append(f"c07:n={n}:k={k}:dir={'fwd' if (n + k) % 2 else 'inv'}")
+        bound = "n in 1..32 x k in 2..8 x both directions; n in 33..128 x k in {2,3,4}"
+    res, _ = _simple_e1(pid, tier, seed, only, specs,
+                        "a k*n buffer is processed as k independent transforms: out[c*n+i] == DFT_i(x[c*n..(c+1)*n]) for all x (the right-hand side mentions only chunk c's symbols, so validity is independence from every other chunk); k = 1 is C01's query",
+                        {"shapes": bound, "entry_points": 4, "planner": "FftPlanner::<Sym>"})
+    return res
+
+
+def check_c08_e1(pid, tier, seed, only, res=None):
+    ns = lens_quick() if tier == "quick" else sorted(set(range(0, 201)) | {243, 255, 256, 257, 263, 283, 289, 320, 359, 360, 383, 384, 479, 503, 512})
+    specs = [f"c08:n={n}:dir={d}" for n in ns for d in ("fwd", "inv")]
+    return _simple_e1(pid, tier, seed, only, specs,
+                      "scratch of exactly the advertised length, +1, +17 and x2, initial scratch and output contents symbolic: out == DFT(x) for all x AND all scratch/output contents, three explicit-scratch entry points",
+                      {"lengths": f"{len(ns)} lengths, max {max(ns)}", "directions": 2, "scratch_lengths": "advertised + {0, 1, 17, advertised}", "planner": "FftPlanner::<Sym>"})
+
+
+C10_POOLS = [
+    ["16f", "64f", "64i", "48f", "96f", "8f", "12i", "96i"],
+    ["6f", "36f", "37f", "37i", "74f", "59i", "118i", "6i"],
+]
+
+
+def c10_specs(tier, seed):
+    import itertools, random
+    rng = random.Random(seed)
+    specs = []
+    pools = C10_POOLS if tier == "thorough" else C10_POOLS[:1]
+    for pi, pool in enumerate(pools):
+        for planner in ("scalar", "auto"):
+            seqs = [list(t) for L in (1, 2) for t in itertools.product(pool, repeat=L)]
+            l3 = [list(t) for t in itertools.product(pool, repeat=3)]
+            if tier == "quick":
+                l3 = rng.sample(l3, 48)
+                if planner == "auto":
+                    seqs = [s for s in seqs if len(s) == 2][::3]
+                    l3 = l3[:16]
+            seqs += l3
+            for sq in seqs:
+                specs.append(f"c10:hist={','.join(sq)}:planner={planner}")
+    if tier == "quick":
+        pool = C10_POOLS[1]
+        for sq in [list(t) for t in itertools.product(pool, repeat=2)][::2]:
+            specs.append(f"c10:hist={','.join(sq)}:planner=scalar")
+    return specs
+
+
+def check_c10(pid, tier, seed, only):
+    specs = c10_specs(tier, seed)
+
+    def cost(sp):
+        return sum(int(x[:-1]) ** 2 for x in re.search(r"hist=([^:]*)", sp).group(1).split(","))
+    res = Result(pid, tier, seed)
+    e1, err = _e1(pid, tier, seed, twin_every=4)
+    if e1 is None:
+        res.inconclusive.append("symlift does not build against /repo: " + err[-300:])
+        return res
+    specs = _filter(specs, only)
+    s = e1.run(specs, cost=cost)
+    res.add_e1("planner histories: every transform returned along a request sequence is the DFT of its own length/direction for all inputs (C01's query), forward/inverse pairs of one history compose to n*x (C06's query), transforms are used only after the planner is dropped, a second planner fed the same sequence yields node-identical outputs (deduplicated) or is decided separately",
+               e1, s, {"histories": f"{len(specs)} request sequences", "pools": C10_POOLS if tier == "thorough" else C10_POOLS[:1] + ["pairs over " + str(C10_POOLS[1])],
+                       "sequence_length": "all of length 1 and 2, " + ("all of length 3" if tier == "thorough" else "a seeded sample of length 3"),
+                       "planners": "FftPlannerScalar::<Sym>, FftPlanner::<Sym>", "history_is_enumerated_inputs_are_symbolic": True, "per_query_cap_s": e1.cap})
+    res.outside.append("AVX planner (replan_with_cache) and SSE planner: f32/f64 only, no ring instantiation exists")
+    return res
+
+
+def check_c14(pid, tier, seed, only):
+    ns = (list(range(0, 41)) + [59, 64, 100, 127, 128]) if tier == "quick" else lens_thorough()[:300]
+    specs = [f"c14:n={n}:dir={d}" for n in ns for d in ("fwd", "inv")]
+    res, e1 = _simple_e1(pid, tier, seed, only, specs,
+                         "element type Sym (16 bytes, neither f32 nor f64): every SIMD planner declines (native fact per obligation), FftPlanner::<Sym> falls back to portable code that only uses ring operations and from_f64/from_usize constants (anything else aborts the symbolic run) and equals the DFT exactly for all inputs",
+                         {"lengths": f"{len(ns)} lengths, max {max(ns)}", "directions": 2, "entry_points": 4, "element_types": "Sym (symbolic terms over F_p, 16 bytes); the concrete-F_p instantiation of the same type is used in translator validation"})
+    if e1 is not None:
+        declined = sum(1 for r in e1.records for n in (r.get("facts") or {}).get("notes", []) if n.startswith("SIMD planners declined"))
+        res.parts[-1]["simd_planners_declined_obligations"] = declined
+    return res
+
+
 CHECKS = {
     "C01": check_c01,
+    "C06": check_c06,
+    "C07": check_c07,
+    "C10": check_c10,
+    "C14": check_c14,
 }
